@@ -84,7 +84,11 @@ class Gen:
             if self.rng.random() < 0.3:
                 # a call in the MIDDLE of a chain whose arguments are chains themselves (each argument is a symbol of its own)
                 arg = self.rng.choice(["bx.v", "bx.items[%d]" % self.rng.randrange(3), "bx.get(%s)" % self.atom(), "len(bx.items)", "abs(bx.v)"])
-                return self.rng.choice(["bx.get(%s).real", "bx.get(%s).bit_length()", "abs(%s).real", "bx.get(%s).numerator.real"]) % arg
+                return self.rng.choice(["bx.get(%s).real", "bx.get(%s).bit_length()", "abs(%s).real", "bx.get(%s).numerator.real",
+                                        # a chain whose base is not a link: the symbols inside the base are symbols of their own
+                                        "(%s + bx.v).real", "[%s][0].real", "(%s if a else bx.v).real",
+                                        # a tuple display as index
+                                        "{(1, 2): %s}[1, 2]", "{(1, 2): %s}[(1, 2)]"]) % arg
             return "bx.v" if self.rng.random() < 0.5 else "bx.get(%s)" % self.expr(d + 1)
         if r < 0.86:
             return "bx.items[%s]" % self.rng.choice(["0", "1", "-1"]) if not w or self.rng.random() < 0.5 else "len(bx.items[%s])" % self.rng.choice(["0:2", "1:", "::2", ":"])
